@@ -201,6 +201,10 @@ def decide(rep, prog, cx=None):
             stores = [k for k, (w, t) in T.cells.items() if k != ((), cx.toff('count'))]
             rep.check(not stores and st.same(cnt, CNT), 'R16.add', 'full|untouched', 'adding to a full table modifies it (cells %s, count %s)' % (stores[:3], short(cnt)),
                       function='session_table_add', file=fnf, sample={'full_table': 'returns NULL, table untouched'})
+            # "no room" may be the answer only for a key that is not in the table: a known session is refreshed even when every
+            # slot is taken - so the refusal, too, comes after a lookup of the same key that missed
+            rep.check(same_args, 'R16.add', 'full|lookup-first', 'add refuses (returns NULL) without a preceding lookup of the same (table, address, generation) that missed: with a full '
+                      'table a known session is no longer refreshed (lookup: %s)' % (None if fnd is None else [short(x) for x in fnd[0]]), function='session_table_add', file=fnf)
             continue
         kinds['insert'] += 1
         rep.check(same_args, 'R16.add', 'insert|lookup-first', 'a session is inserted without a preceding lookup of the same (table, address, generation) that missed (lookup: %s)'
